@@ -72,13 +72,21 @@ def oracle_c05(rec: I.Rec):
         snap = st["snap"]
         if snap["phase"] == "InWait":
             n = snap["nwait"]
-            if n > M:
-                errs.append(("over_subscription", f"step {si}: {n} evaluations in flight with ntasks={M}"))
+            Mt = snap.get("maxw") or M           # ntasks, or the executor's CURRENT worker count (ntasks=None)
+            nsub = sum(1 for a in st["acts"] if a[0] == "submit")
+            before = n - nsub                    # still in flight from earlier steps (cannot be un-submitted)
+            room = max(0, Mt - before)
+            if nsub > room:
+                errs.append(("over_subscription", f"step {si}: {nsub} evaluations submitted with {before} in flight and "
+                                                  f"{'ntasks' if spec['ntasks'] else 'current worker count'}={Mt} ({n} in flight)"))
             asks = [a for a in st["acts"] if a[0] == "ask"]
             short = any(len(a[2]) < a[1] for a in asks)
-            if n < M and not short:
-                errs.append(("under_subscription", f"step {si}: only {n} of {M} evaluations in flight although the goal is "
+            if nsub < room and not short:
+                errs.append(("under_subscription", f"step {si}: only {n} of {Mt} evaluations in flight although the goal is "
                                                     f"unmet and the learner was not short of points (asks: {[(a[1], len(a[2])) for a in asks]})"))
+            for a in asks:
+                if a[1] <= 0:
+                    errs.append(("ask_nonpositive", f"step {si}: learner.ask({a[1]}) called"))
         if ev[0] in ("wait", "shutdown"):
             pass
     # stop
@@ -183,6 +191,7 @@ def oracle_c06(rec: I.Rec):
                 else:
                     first_ok.setdefault(k, o[1])
                     ok_now[k] = o[1]
+        M = st["snap"].get("maxw") or M
         due_before = [k for k in nfail if 1 <= nfail[k] <= R and k not in first_ok and k not in told and k not in inflight.values()]
         free = M - len(inflight)
         submitted_now, ask_n = [], None
@@ -289,7 +298,7 @@ def next_asks(spec, l, n=4):
     if k == "mock":
         return list(range(l.next, min(l.total, l.next + n)))
     pts, _ = l.ask(n, tell_pending=False)
-    return list(pts)
+    return [tuple(p) if isinstance(p, tuple) else p for p in pts]
 
 
 def new_learner(spec, l):
@@ -312,19 +321,45 @@ def oracle_c19(rec: I.Rec):
             calls.append(("ask", a[1]))
         elif a[0] == "tell":
             calls.append(("tell", a[1], a[2]))
-    log_nz = [tuple(e) for e in r.log if not (e[0] == "ask" and e[1] == 0)]
-    if len(log_nz) != len(calls) or any(
-            (a[0] != b[0]) or (a[0] == "ask" and a[1] != b[1]) or
-            (a[0] == "tell" and not (_same(a[1], b[1]) and _same(a[2], b[2]))) for a, b in zip(log_nz, calls)):
-        errs.append(("log_is_call_sequence", f"runner.log (without ask 0) has {len(log_nz)} entries, the learner received "
-                                            f"{len(calls)} ask/tell calls, or they differ: log={log_nz[:6]} calls={calls[:6]}"))
+    # (i) the log against the calls actually made: every entry is the next call, exactly; only an
+    # ("ask", n) entry with n <= 0 may stand for no call at all (_ask makes none when n = 0)
+    def same_entry(a, b):
+        if a[0] != b[0]:
+            return False
+        if a[0] == "ask":
+            return a[1] == b[1]
+        return _same(a[1], b[1]) and _same(a[2], b[2])
+    ptr, bad = 0, None
+    for e in (tuple(x) for x in r.log):
+        if ptr < len(calls) and same_entry(e, calls[ptr]):
+            ptr += 1
+        elif e[0] == "ask" and e[1] <= 0:
+            pass        # no call was made; whether replaying it is harmless is decided by the replay below
+        else:
+            bad = (e, calls[ptr] if ptr < len(calls) else None)
+            break
+    if bad or (ptr != len(calls) and bad is None):
+        errs.append(("log_is_call_sequence", f"runner.log is not the sequence of calls the learner received: log entry {bad[0] if bad else None!r} "
+                                            f"vs call {bad[1] if bad else calls[ptr]!r} (log has {len(r.log)} entries, {len(calls)} calls were made)"))
     orig = rec.learner
     twin = new_learner(spec, orig)
     try:
         replay_log(twin, r.log)
     except Exception as e:   # noqa: BLE001
-        errs.append(("replay_raises", f"replay_log raised {e!r}"))
-        return errs
+        # The unchanged runner logs ("ask", 0) -- without calling the learner -- when no slot is free
+        # (ntasks=None and a pool that shrank below the number in flight); AverageLearner.ask(0) raises
+        # ZeroDivisionError, so replay_log fails on such a log.  Reported separately (observation).
+        log0 = [x for x in r.log if not (x[0] == "ask" and x[1] == 0)]
+        twin = new_learner(spec, orig)
+        try:
+            if len(log0) == len(r.log):
+                raise e
+            replay_log(twin, log0)
+            errs.append(("replay_ask0_raises", f"replay_log raised {e!r} on the logged ('ask', 0) entry, which stands for no call "
+                                               f"(the log without it replays)"))
+        except Exception as e2:   # noqa: BLE001
+            errs.append(("replay_raises", f"replay_log raised {e2!r}"))
+            return errs
     a, b = snapshot_learner(spec, orig), snapshot_learner(spec, twin)
     if set(a["data"]) != set(b["data"]) or any(not _same(a["data"][k], b["data"][k]) for k in a["data"]):
         errs.append(("replay_data", f"replayed learner has {len(b['data'])} data points, original {len(a['data'])}, or values differ"))
